@@ -1,0 +1,30 @@
+//go:build verif
+
+package verifhook
+
+import "sync/atomic"
+
+// Hooks is installed by the verification harness. Emit is called at
+// linearization points (inside the critical section that made the change);
+// Gate may block the calling goroutine inside a named window.
+type Hooks struct {
+	Emit func(ev string, obj any, id uint64, n int, s string)
+	Gate func(name string, obj any, id uint64)
+}
+
+var cur atomic.Pointer[Hooks]
+
+// Install replaces the current hooks (nil disables them).
+func Install(h *Hooks) { cur.Store(h) }
+
+func Emit(ev string, obj any, id uint64, n int, s string) {
+	if h := cur.Load(); h != nil && h.Emit != nil {
+		h.Emit(ev, obj, id, n, s)
+	}
+}
+
+func Gate(name string, obj any, id uint64) {
+	if h := cur.Load(); h != nil && h.Gate != nil {
+		h.Gate(name, obj, id)
+	}
+}
